@@ -167,6 +167,30 @@ def _special_case(args):
             with dclab.new_dataset(path) as ds:
                 out += summary_violations(ds, ["deform"], W, case,
                                           {"replace": True}, "replace mode")
+    elif which == "append-to-bare":
+        # a file whose datasets carry no / only some summaries (written by
+        # acquisition software or an older version), then appended to
+        for keep in ((), ("min", "max"), ("mean",)):
+            for d1, d2 in (([0.9, 0.8, 0.7], [0.1, np.nan, 0.3, 0.2]),
+                           ([np.nan, np.nan], [0.4, 0.6]),
+                           ([5.0, 1.0, 3.0], [np.nan])):
+                with RTDCWriter(path, mode="reset") as hw:
+                    hw.store_metadata(gen.complete_meta(len(d1), fl=False))
+                    hw.store_feature("deform", np.array(d1))
+                    hw.store_feature("area_um", np.array(d1) * 100)
+                with h5py.File(path, "a") as h5:
+                    for f in ("deform", "area_um"):
+                        for k in ("min", "max", "mean"):
+                            if k not in keep and k in h5["events"][f].attrs:
+                                del h5["events"][f].attrs[k]
+                with RTDCWriter(path, mode="append") as hw:
+                    hw.store_feature("deform", np.array(d2))
+                    hw.store_feature("area_um", np.array(d2) * 100)
+                with dclab.new_dataset(path) as ds:
+                    out += summary_violations(
+                        ds, ["deform", "area_um"], W, case,
+                        {"bare": True, "kept": ",".join(keep) or "none"},
+                        f"append to a file with summaries {keep or 'none'}")
     if path.exists():
         path.unlink()
     return out
@@ -340,7 +364,8 @@ def run(ctx):
     for r in res:
         viols.extend(r[2])
     for vs in par.pmap(_special_case, [(w, scratch) for w in
-                                       ("int", "single", "replace")]):
+                                       ("int", "single", "replace",
+                                        "append-to-bare")]):
         viols.extend(vs)
     steps = ["compress", "repack", "condense", "export", "export-filtered",
              "join2", "join3", "hierarchy", "hierarchy-nofilter",
